@@ -149,10 +149,16 @@ fn resolve_promise(
     promise: &Gc<JsObject>,
     value: JsValue,
 ) -> Result<(), JsError> {
-    // Check if value is a thenable (another promise)
-    if let JsValue::Object(obj) = &value
+    // Check if value is a thenable (another promise). Take the state handle out first: the
+    // object borrow must not be alive while the handlers run (they may write to that promise).
+    let adopted_state = if let JsValue::Object(obj) = &value
         && let ExoticObject::Promise(state) = &obj.borrow().exotic
     {
+        Some(state.clone())
+    } else {
+        None
+    };
+    if let Some(state) = adopted_state {
         // If the value is a promise, adopt its state
         let state_ref = state.borrow();
         match state_ref.status {
